@@ -16,6 +16,14 @@ let mk forced = (fun args ->
         match op with
         | [ "est"; k; v ] -> Hashtbl.replace est (n_of_string k) (z_of_string v); "ok " ^ v
         | [ "estcheck"; k ] -> string_of_z (estf (n_of_string k))
+        | [ "age"; kvs ] ->
+            (* the sketch aged: the estimates are whatever count-min + doorkeeper now say (observed, fed back) *)
+            Hashtbl.reset est;
+            if kvs <> "-" then
+              List.iter (fun s -> match String.split_on_char ':' s with
+                                  | [ a; b ] -> Hashtbl.replace est (n_of_string a) (z_of_string b)
+                                  | _ -> failwith "age") (String.split_on_char ',' kvs);
+            "ok " ^ kvs
         | "add" :: k :: cost :: rest when not forced || rest = [] ->
             (match pol_add [] estf !p !m (n_of_string k) (z_of_string cost) with
              | AddOk (vs, added, p', m', _, _) ->
